@@ -307,8 +307,6 @@ impl MultiState {
                 .as_ref()
                 .map(|d| d.visual_line_count(.., width))
                 .unwrap_or_default();
-            // Track the total number of zombie lines on the screen.
-            self.zombie_lines_count += line_count;
 
             // Track the number of zombie lines that will be drawn by this call to draw.
             adjust += line_count;
@@ -316,21 +314,22 @@ impl MultiState {
             reap_indices.push(index);
         }
 
-        // If this draw is due to a `println`, then we need to erase all the zombie lines.
-        // This is because `println` is supposed to appear above all other elements in the
-        // `MultiProgress`.
-        if extra_lines.is_some() {
-            self.draw_target
-                .adjust_last_line_count(LineAdjust::Clear(self.zombie_lines_count));
-            self.zombie_lines_count = VisualLines::default();
-        }
-
         let orphan_visual_line_count = visual_line_count(&self.orphan_lines, width);
         force_draw |= orphan_visual_line_count > VisualLines::default();
         let mut drawable = match self.draw_target.drawable(force_draw, now) {
             Some(drawable) => drawable,
+            // Rate limited: nothing was drawn, so nothing is reaped or counted either.
             None => return Ok(()),
         };
+
+        // If this draw is due to a `println`, then we need to erase all the zombie lines that are
+        // still on the screen. This is because `println` is supposed to appear above all other
+        // elements in the `MultiProgress`.
+        let prints_lines = extra_lines.is_some();
+        if prints_lines {
+            drawable.adjust_last_line_count(LineAdjust::Clear(self.zombie_lines_count));
+            self.zombie_lines_count = VisualLines::default();
+        }
 
         let mut draw_state = drawable.state();
         draw_state.alignment = self.alignment;
@@ -357,8 +356,11 @@ impl MultiState {
         }
 
         // The zombie lines were drawn for the last time, so make `DrawTarget` forget about them
-        // so they aren't cleared on next draw.
-        if extra_lines.is_none() {
+        // so they aren't cleared on next draw. (If lines were printed above them, they are instead
+        // left to be cleared by the next draw, like all other zombie lines.)
+        if !prints_lines {
+            // Track the total number of zombie lines on the screen.
+            self.zombie_lines_count = self.zombie_lines_count.saturating_add(adjust);
             self.draw_target
                 .adjust_last_line_count(LineAdjust::Keep(adjust));
         }
